@@ -28,6 +28,7 @@ func c12Scenario(sp *c12Spec) explore.Scenario {
 		var engErr string
 		var vs []explore.Violation
 		var trace []string
+		var detail []string
 		add := func(sig, msg string) {
 			for _, v := range vs {
 				if v.Sig == "C12:"+sig {
@@ -160,11 +161,12 @@ func c12Scenario(sp *c12Spec) explore.Scenario {
 				if nodes[i] != nil {
 					cm, pr := parseArb(nodes[i].Poke("arbiter").(string))
 					trace = append(trace, fmt.Sprintf("n%d=%s(commit %d, accepted %d)", i, nodes[i].StateName(), cm, pr))
+					detail = append(detail, fmt.Sprintf("n%d: %v", i, nodes[i].Poke("arbiter")))
 				}
 			}
 			if leader < 0 {
 				if sp.RestartAt == 0 {
-					add("no-leader", fmt.Sprintf("15 s after the leader's death no survivor is leader: %v", trace))
+					add("no-leader", fmt.Sprintf("15 s after the leader's death no survivor is leader: %v; %v", trace, detail))
 				}
 				return
 			}
